@@ -96,3 +96,12 @@ pub(crate) fn tables_equal(a: &FSETable, b: &FSETable) -> bool {
     while i < a.symbol_counter.len() { if a.symbol_counter[i] != b.symbol_counter[i] { return false; } i += 1; }
     true
 }
+
+/// a two-state table (accuracy log 1) whose states carry the given symbols; each state reads 1 bit with baseline 0,
+/// so every next state is in the table (state-injection for the sequence decoder harnesses)
+pub(crate) fn inject_two_state_table(t: &mut FSETable, s0: u8, s1: u8) {
+    t.reset();
+    t.accuracy_log = 1;
+    t.decode.push(Entry { base_line: 0, num_bits: 1, symbol: s0 });
+    t.decode.push(Entry { base_line: 0, num_bits: 1, symbol: s1 });
+}
